@@ -268,6 +268,11 @@ func judge[K any](ks keyspace[K], desc bool, list maplike.MapLike[K, int], level
 	emit func(level, pred string, want, got any)) {
 	got, ok := parseForm(ks, fmt.Sprint(list), levels)
 	if !ok {
+		if txt := strings.TrimSpace(fmt.Sprint(list)); !strings.Contains(txt, "\n") && len(wantLive) > 0 {
+			// nothing but the header line although keys are live: whatever the format, the live keys are not listed
+			emit("pviol", "FormAscending", wantLive, txt)
+			return
+		}
 		emit("harness", "printed form not parsable", nil, fmt.Sprint(list))
 		return
 	}
